@@ -45,6 +45,12 @@ pub struct StepInfo {
     pub call_kind: &'static str,
     /// message kind of the delivered datagram, if any
     pub delivered_kind: Option<&'static str>,
+    /// (sending node, global send index) of the delivered datagram
+    pub delivered_from: Option<(usize, u64)>,
+    /// global send index of the first datagram sent in this step
+    pub first_sent_index: u64,
+    /// the delivered datagram itself
+    pub delivered_bytes: Option<Vec<u8>>,
     pub res_ok: bool,
     pub err: Option<(ErrKind, String)>,
     pub panic: Option<String>,
@@ -146,10 +152,10 @@ impl Sim {
 
     /// Executes an API call on a node "now" and routes its effects. Returns what happened.
     pub fn call(&mut self, node: usize, call: Call) -> StepInfo {
-        self.exec(node, call, None)
+        self.exec(node, call, None, None)
     }
 
-    fn exec(&mut self, node: usize, call: Call, delivered_kind: Option<&'static str>) -> StepInfo {
+    fn exec(&mut self, node: usize, call: Call, delivered_kind: Option<&'static str>, delivered_from: Option<(usize, u64)>) -> StepInfo {
         self.steps += 1;
         let step = self.steps;
         let call_kind = call.kind();
@@ -160,6 +166,12 @@ impl Sim {
             step,
             call_kind,
             delivered_kind,
+            delivered_from,
+            first_sent_index: self.sent_count,
+            delivered_bytes: match call {
+                Call::Data(b) => Some(b),
+                _ => None,
+            },
             res_ok: res.is_ok(),
             err: match &res {
                 Res::Err(k, m) => Some((*k, m.clone())),
@@ -223,7 +235,7 @@ impl Sim {
             let p = self.payloads.remove(&seq).expect("payload");
             self.now = self.now.max(t);
             match p {
-                Payload::Deliver { to_addr, bytes, .. } => {
+                Payload::Deliver { to_addr, bytes, from, index } => {
                     let Some(node) = self.node_of_addr(to_addr) else {
                         self.undeliverable += 1;
                         continue;
@@ -232,13 +244,13 @@ impl Sim {
                         continue;
                     }
                     let kind = wire::parse(&bytes, self.codec).map(|d| wire::kind_name(&d.header.message)).unwrap_or("unparseable");
-                    return Some(self.exec(node, Call::Data(bytes), Some(kind)));
+                    return Some(self.exec(node, Call::Data(bytes), Some(kind), Some((from, index))));
                 }
                 Payload::Fire { node, timer } => {
                     if self.nodes[node].crashed {
                         continue;
                     }
-                    return Some(self.exec(node, Call::Timer(timer), None));
+                    return Some(self.exec(node, Call::Timer(timer), None, None));
                 }
             }
         }
